@@ -46,9 +46,14 @@ func (w *vWorld) opRev(ops []zzmodel.Op) uint64 {
 // all requests returned it reaches the highest revision handed out, and a later write becomes
 // readable.
 func VerifC04Resolve() {
-	w := vNewWorld(zzverif.Param("keys", 1))
-	w.history()
 	var open []uint64 // revisions of storage transactions in progress
+	watch := &vWatchTSO{onCommit: func(c uint64) {
+		for _, r := range open {
+			zzverif.Assert(r > c, "the readable revision never reaches a write whose storage transaction has not finished")
+		}
+	}}
+	w := vNewWorldTSO(zzverif.Param("keys", 1), func(t tso.TSO) tso.TSO { watch.TSO = t; return watch })
+	w.history()
 	w.s.OnBegin = func(ops []zzmodel.Op) {
 		if r := w.opRev(ops); r != 0 {
 			open = append(open, r)
@@ -63,11 +68,6 @@ func VerifC04Resolve() {
 			}
 		}
 	}
-	w.b.tso = &vWatchTSO{TSO: w.b.tso, onCommit: func(c uint64) {
-		for _, r := range open {
-			zzverif.Assert(r > c, "the readable revision never reaches a write whose storage transaction has not finished")
-		}
-	}}
 	w.s.Yield = func(string) { zzverif.Yield() }
 	nf := 0
 	maxf := zzverif.Param("faults", 1)
